@@ -1263,7 +1263,7 @@ def c13(tier, seed):
         steps = [{"start": "A"}, {"settle": 20}, {"send": "A", "event": "w.on"}, {"sleep_us": rng.choice([0, 200, 2000])},
                  {"send": "A", "event": "w.off"}, {"send": "A", "event": "w.on"}] + \
                 [{"send": "A", "event": h} for h in host] + \
-                [{"await_xr": "A", "name": "k2.%d" % mk, "max_ms": 4000}, {"send": "A", "event": "kick"}, {"settle": 60}]
+                [{"await_xr": "A", "name": "k2.%d" % mk, "max_ms": 15000}, {"send": "A", "event": "kick"}, {"settle": 60}]
         jobs.append({"id": jid, "sessions": [{"name": "A", "xml": C13_CONSUMER_INV % _esc(child)}], "steps": steps, "timeout_ms": 60000, "peer": 0,
                      "prebuilt": True})
         meta[jid] = ({"host": ctl + host + ["kick"], "child2": ["k2.%d" % (q + 1) for q in range(mk)]}, [], [], 0)
